@@ -10,11 +10,16 @@
    longer spellings first).  NormDomain.c10_domain: as in C10.
 
    What "the same query written with other spellings" is: one structure q printed by
-   Serialize.query_text with each environment's spellings.  Queries in free (non-canonical)
-   spelling - shorthand, blanks, aliases - are covered by the correspondence only (as in C01/C13):
-   that the parser maps every spelling to the structure is not a theorem. *)
+   Serialize.query_text with each environment's spellings (C17_rename), and, beyond the canonical
+   text, every FREE spelling of q (spec/FreeSpell.v: blank space wherever the scanner skips it, single
+   or double quotes with any escape spelling of the same string, dot shorthand for names / wildcard /
+   keys selector, bare names after `..`, lone dots) - C17_free_spelling - and the spellings that
+   differ in token values only (word operators, capitalised / aliased literals, equal numbers,
+   omitted slice step) - C17_token_alias.  Not covered by a theorem: redundant parentheses, bare
+   names inside brackets, integer literals with exponents, `<>` (a different operator with the same
+   meaning: C13).  Those are carried by the correspondence. *)
 From JP Require Import Base Json Syntax Lex Parse Eval Serialize TokPrint Printable Reparsable Gate
-                       NormDomain TokensOk FreeSpell NormProofs SpellingProofs PrintParseProofs PrintLexProofs RoundTrip FreeSpellProofs.
+                       NormDomain TokensOk FreeSpell NormProofs SpellingProofs PrintParseProofs PrintLexProofs RoundTrip FreeSpellProofs FreeParseProofs TokenAlias TokenAliasProofs.
 
 (* the lexer reads the string form produced with ANY admissible spellings as exactly the tokens it
    was printed from - prefix-related spellings included *)
@@ -90,18 +95,40 @@ Theorem C17_lex_free :
 Proof. exact FreeSpellProofs.lex_free. Qed.
 Print Assumptions C17_lex_free.
 
-(* ... and those of them that denote the canonical token list (blanks anywhere allowed, blanks
-   around the colons of a slice and after a call's parenthesis, lone dots) compile to the normal
-   form of the query, hence return what the query returns *)
-Theorem C17_free_spelling_same_tokens :
-  forall (E : env) re_ok rf rs (q : query) (t : ustr) (ts : list token) (d ctx : json),
+(* ... and every free spelling of a query compiles, to a query with the same normal form - hence
+   one that returns what the query returns on every document and filter context *)
+Theorem C17_free_spelling :
+  forall (E : env) re_ok (q : query) (t : ustr),
     tokens_ok E = true -> e_well_typed E = true -> e_unicode_escape E = true ->
-    c10_domain E re_ok q = true ->
-    FreeSpell.spells_as E q t ts -> query_toks E q = Ok ts ->
+    c10_domain E re_ok q = true -> FreeSpell.spells E q t ->
+    exists q', compile E re_ok t = Ok q' /\ norm_query q' = norm_query q.
+Proof. exact FreeParseProofs.free_spelling. Qed.
+Print Assumptions C17_free_spelling.
+
+Theorem C17_free_spelling_results :
+  forall (E : env) re_ok rf rs (q : query) (t : ustr) (d ctx : json),
+    tokens_ok E = true -> e_well_typed E = true -> e_unicode_escape E = true ->
+    c10_domain E re_ok q = true -> FreeSpell.spells E q t ->
     exists q', compile E re_ok t = Ok q' /\
                compound_finditer E rf rs q' d ctx = compound_finditer E rf rs q d ctx.
-Proof. exact FreeSpellProofs.free_spelling_same_tokens_results. Qed.
-Print Assumptions C17_free_spelling_same_tokens.
+Proof. exact FreeParseProofs.free_spelling_results. Qed.
+Print Assumptions C17_free_spelling_results.
+
+(* the spellings that differ in token VALUES only (spec/TokenAlias.v: word operators and/or/not,
+   capitalised and aliased literals True/False/Nil/null/none, undefined/missing, float literals
+   denoting the same number, an omitted slice step vs 1): position-wise aliased token lists compile
+   to queries with the same normal form, or fail with the same error *)
+Theorem C17_token_alias :
+  forall (E : env) re_ok (ts ts' : list token),
+    in_range (e_min_index E) (e_max_index E) 1%Z = true ->
+    TokenAlias.alias ts ts' ->
+    match compile_tokens E re_ok ts, compile_tokens E re_ok ts' with
+    | Ok q, Ok q' => norm_query q = norm_query q'
+    | Err e, Err e' => e = e'
+    | _, _ => False
+    end.
+Proof. exact TokenAliasProofs.alias_compile. Qed.
+Print Assumptions C17_token_alias.
 
 (* the default spellings are admissible *)
 Theorem C17_default_admissible : forall E, default_tokens E -> tokens_ok E = true.
